@@ -1,6 +1,141 @@
-(* C18 stub *)
-From Coq Require Import List.
+(* C18 -- "jobmap computes each item once, reuses only valid results, resumes cleanly": property theorems only.
+   Model: Model/Jobmap.v (source keys, destination map, cache directory, execution counters; the outcome of the n-th
+   execution of an item is an arbitrary oracle).  Tie: harness/c18.py replays sequences of real jobmap runs in the
+   model (check_jcase evaluated by the kernel).
+   Hypotheses used throughout: the source keys are distinct (a library is a map) and the cache file names of different
+   sub-items are distinct (all_names; proved below from the key hypothesis for single jobs and for vectorised jobs
+   with at most 10 sub-items). *)
+From Coq Require Import List Bool NArith ZArith String.
 Import ListNotations.
-From Molli Require Import Model.Jobmap.
-Example C18_stub : check_jcase (mk_jcase [] (mk_js [] [] [] []) [] []) = true.
-Proof. reflexivity. Qed.
+From Molli Require Import Model.Job Model.Jobmap Proofs.Jobmap.
+Local Open Scope string_scope.
+
+(* One run, pointwise.  Executed = to_be_done minus valid cache: the counter of a name advances by exactly one iff the
+   name is on the run list, its cache entry then is the output of that execution, everything else is untouched; an
+   entry of the destination never changes; a work item's new entry is the processed outputs iff all of them are good. *)
+Theorem C18_run : forall outcome p st, NoDup (map fst (js_src st)) -> NoDup (runlist p st) ->
+  let st' := jobmap outcome p st in
+  js_src st' = js_src st
+  /\ (forall nm, cnt st' nm = if mem nm (runlist p st) then (cnt st nm + 1)%N else cnt st nm)
+  /\ (forall nm, dget nm (js_cache st') =
+                 if mem nm (runlist p st) then Some (COut (fresh outcome p st nm)) else dget nm (js_cache st))
+  /\ (forall k, dget k (js_dst st') =
+        match dget k (js_dst st) with
+        | Some v => Some v
+        | None => match find (key_is k) (js_src st) with
+                  | Some kl => all_good (js_cache st') (names p kl)
+                  | None => None
+                  end
+        end).
+Proof. exact jobmap_spec. Qed.
+Print Assumptions C18_run.
+
+(* the run list: sub-items of source keys that are not in the destination and have no valid cached output *)
+Theorem C18_executed : forall p st nm, In nm (runlist p st) <->
+  exists kl, In kl (js_src st) /\ dget (fst kl) (js_dst st) = None /\ In nm (names p kl)
+             /\ valid p (dget nm (js_cache st)) = false.
+Proof. exact in_runlist. Qed.
+Print Assumptions C18_executed.
+
+(* a cached output of a different input (strict_hash), of a failed run, a damaged or a missing one is not reused *)
+Theorem C18_no_reuse_stale : forall p st kl nm,
+  In kl (js_src st) -> dget (fst kl) (js_dst st) = None -> In nm (names p kl) ->
+  (dget nm (js_cache st) = None \/ dget nm (js_cache st) = Some CCorrupt
+   \/ (exists o, dget nm (js_cache st) = Some (COut o) /\ (o_code o <> 0%Z \/ (jp_strict p = true /\ o_arg o <> jp_arg p)))) ->
+  In nm (runlist p st).
+Proof. exact stale_recomputed. Qed.
+Print Assumptions C18_no_reuse_stale.
+
+(* destination: existing entries (of source keys or of keys present only there) are left alone, no foreign key appears,
+   a work item is stored iff every output is good *)
+Theorem C18_dest_preserved : forall outcome p st k v, NoDup (map fst (js_src st)) -> NoDup (runlist p st) ->
+  dget k (js_dst st) = Some v -> dget k (js_dst (jobmap outcome p st)) = Some v.
+Proof. exact dst_preserved. Qed.
+Print Assumptions C18_dest_preserved.
+
+Theorem C18_dest_no_foreign : forall outcome p st k, NoDup (map fst (js_src st)) -> NoDup (runlist p st) ->
+  dget k (js_dst st) = None -> ~ In k (map fst (js_src st)) -> dget k (js_dst (jobmap outcome p st)) = None.
+Proof. exact dst_no_foreign. Qed.
+Print Assumptions C18_dest_no_foreign.
+
+Theorem C18_dest_new : forall outcome p st kl, NoDup (map fst (js_src st)) -> NoDup (runlist p st) ->
+  In kl (js_src st) -> dget (fst kl) (js_dst st) = None ->
+  dget (fst kl) (js_dst (jobmap outcome p st)) = all_good (js_cache (jobmap outcome p st)) (names p kl).
+Proof. exact dst_new. Qed.
+Print Assumptions C18_dest_new.
+
+(* resume: a rerun with the same arguments executes exactly what failed in the previous run *)
+Theorem C18_resume : forall outcome p st nm, NoDup (map fst (js_src st)) -> NoDup (all_names p st) ->
+  In nm (runlist p (jobmap outcome p st)) <-> In nm (runlist p st) /\ failed (outcome nm (cnt st nm)).
+Proof. exact resume. Qed.
+Print Assumptions C18_resume.
+
+(* computed once: an item that is in the destination or completely and validly cached is never executed again, however
+   many times jobmap is rerun with these arguments; an item all of whose executions succeed becomes such an item, and
+   (cached successes carrying their return file, which run_local guarantees) lands in the destination *)
+Theorem C18_computed_once : forall outcome p n st kl, NoDup (map fst (js_src st)) -> NoDup (all_names p st) ->
+  In kl (js_src st) -> settled p st kl -> forall nm, In nm (names p kl) -> cnt (rerun outcome p n st) nm = cnt st nm.
+Proof. exact computed_once. Qed.
+Print Assumptions C18_computed_once.
+
+Theorem C18_success_settles : forall outcome p st kl, NoDup (map fst (js_src st)) -> NoDup (all_names p st) ->
+  In kl (js_src st) ->
+  (forall nm, In nm (names p kl) -> In nm (runlist p st) -> outcome nm (cnt st nm) = OSucceed) ->
+  settled p (jobmap outcome p st) kl.
+Proof. exact success_settles. Qed.
+Print Assumptions C18_success_settles.
+
+Theorem C18_success_completes : forall outcome p st kl, NoDup (map fst (js_src st)) -> NoDup (all_names p st) ->
+  In kl (js_src st) -> cache_wf st ->
+  (forall nm, In nm (names p kl) -> In nm (runlist p st) -> outcome nm (cnt st nm) = OSucceed) ->
+  dget (fst kl) (js_dst (jobmap outcome p st)) <> None.
+Proof. exact success_completes. Qed.
+Print Assumptions C18_success_completes.
+
+Theorem C18_cache_wf_kept : forall outcome p st, NoDup (map fst (js_src st)) -> NoDup (all_names p st) ->
+  cache_wf st -> cache_wf (jobmap outcome p st).
+Proof. exact cache_wf_jobmap. Qed.
+Print Assumptions C18_cache_wf_kept.
+
+(* the name hypotheses follow from distinct source keys *)
+Theorem C18_names_distinct_single : forall st arg strict,
+  NoDup (map fst (js_src st)) -> NoDup (all_names (mk_jp arg strict false) st).
+Proof. exact names_single_nodup. Qed.
+Theorem C18_names_distinct_vectorised : forall st arg strict,
+  NoDup (map fst (js_src st)) -> (forall kl, In kl (js_src st) -> snd kl <= 10) ->
+  NoDup (all_names (mk_jp arg strict true) st).
+Proof. exact names_vec_nodup. Qed.
+Theorem C18_runlist_distinct : forall p st, NoDup (all_names p st) -> NoDup (runlist p st).
+Proof. exact (runlist_nodup (fun _ _ => OSucceed)). Qed.
+Print Assumptions C18_names_distinct_vectorised.
+
+(* ---- non-vacuity: a vectorised library, one pre-populated key, a destination-only key, a stale and a damaged cache
+   entry; b.1 fails once.  Run 1 executes a.0, a.1, b.0, b.1 (not c, not zz), stores a; run 2 executes only b.1 and
+   stores b; run 3 executes nothing. *)
+Definition ex_plans : list (string * list okind) := [("b.1", [OFail 3%positive])].
+Definition ex_state : jstate :=
+  mk_js [("a", 2%nat); ("b", 2%nat); ("c", 1%nat)] [("c", [("pre", 9%N)]); ("zz", [("pre", 1%N)])]
+        [("a.0", COut (mk_out "B" 0 true 5%N)); ("b.0", CCorrupt); ("c.0", COut (mk_out "A" 7 false 0%N))] [("a.0", 6%N)].
+Definition ex_p : jparams := mk_jp "A" true true.
+
+Example C18_nonvacuous :
+  let o := plan_outcome ex_plans in
+  let s1 := jobmap o ex_p ex_state in
+  let s2 := jobmap o ex_p s1 in
+  let s3 := jobmap o ex_p s2 in
+  NoDup (map fst (js_src ex_state)) /\ NoDup (all_names ex_p ex_state) /\ cache_wf ex_state
+  /\ runlist ex_p ex_state = ["a.0"; "a.1"; "b.0"; "b.1"]
+  /\ map fst (js_dst s1) = ["c"; "zz"; "a"] /\ dget "a" (js_dst s1) = Some [("A", 6%N); ("A", 0%N)]
+  /\ runlist ex_p s1 = ["b.1"]
+  /\ dget "b" (js_dst s2) = Some [("A", 0%N); ("A", 1%N)]
+  /\ runlist ex_p s2 = [] /\ js_count s3 = js_count s2 /\ js_dst s3 = js_dst s2
+  /\ settled ex_p s1 ("a", 2%nat).
+Proof.
+  cbv zeta. repeat split; try reflexivity.
+  - repeat constructor; simpl; intuition discriminate.
+  - repeat constructor; simpl; intuition discriminate.
+  - intros nm o H. simpl in H.
+    repeat match type of H with (if ?c then _ else _) = _ => destruct c end; try discriminate;
+    injection H as <-; simpl; intros; try reflexivity; discriminate.
+  - left. vm_compute. discriminate.
+Qed.
